@@ -5,7 +5,9 @@ from itertools import permutations
 PROP = "C04"
 LEVEL = "proof"
 RULE = ("index: random multifurcating trees (3..40 tips, occasionally 63/64/65/128/129; rooted/unrooted; parent slot anywhere; "
-        "byte-wise tricky tip names incl. bytes >= 0x80, prefixes, digits; a few with duplicated names) -> every table of every branch; "
+        "byte-wise tricky tip names incl. bytes >= 0x80, prefixes, digits; a few with duplicated names, a few whose root has a single neighbour [correspondence only]) -> every table of every branch; "
+        "edit: one of 13 editing operations (reroot, unroot, removetips, collapse*, resolve, shuffle, removesingle, midpoint, outgroup, "
+        "rotate, sort), then the tables as the operation left them or after an explicit ReinitIndexes, against the dumped result tree; "
         "samebip: two trees on the same taxa (re-rooted / re-ordered / root inserted or removed copy, NNI-perturbed copy, or independent "
         "tree), all pairs of branches; edgeindex: histories of PutEdgeValue/AddEdgeCount/Value on one EdgeIndex, initial capacity 0..64 "
         "(non powers of two included), load factor k/128 in [2/128, 4], keys presented through the branches of both trees; "
@@ -24,13 +26,7 @@ ASSUMPTIONS = ["Go int counters (ntaxleft/right, tipid, Count) do not overflow 6
 LEVEL_TEXT = "machine-checked theorems about the Gallina model + correspondence/oracle runs against the Go code"
 LEVEL_NOTE = ""
 
-INCLUDE_CAP0 = True       # initial capacity 0 is inside "every initial capacity" (the code panics on it)
-
-MATCHERS = {
-    "C04-quartet-hash": lambda case: "have different HashCode" in " ".join(case.get("fields") or [])
-                                     or ((case.get("meta") or {}).get("kind") == "qmap"),
-    "C04-capacity-zero": lambda case: "initial capacity 0" in " ".join(case.get("fields") or []),
-}
+INCLUDE_CAP0 = True       # initial capacity 0 is inside "every initial capacity" (NewHashMap turns it into 1)
 
 # ---------------------------------------------------------------- names
 
@@ -172,6 +168,11 @@ def case_index(g, rng, tier):
     else:
         n = rng.randint(3, 40)
     t = rand_tree(g, rng, n)
+    if rng.random() < 0.04:
+        # a root with a single neighbour (a "tip" for the Go tip index): correspondence only
+        t["slots"].insert(rng.randrange(len(t["slots"]) + 1), None)
+        t = {"name": rng.choice(["", "r", "a", "~root"]), "coms": [],
+             "slots": [({"len": Fraction(1, 2), "sup": None, "pv": None, "coms": []}, t)]}
     dup = False
     if rng.random() < 0.04:
         ls = [x for x in preorder(t) if not kids(x)]
